@@ -8,6 +8,7 @@ import (
 	"os"
 	"strings"
 	"time"
+	"verifharness/internal/pbt"
 
 	"github.com/gdamore/tcell/v2"
 	"github.com/gdamore/tcell/v2/terminfo"
@@ -75,7 +76,9 @@ type Runner struct {
 	Shadow *shadow.Screen
 	Caps   Caps
 
-	Corrupted bool // emulator contents scrambled: comparisons suspended until a full redraw
+	writeFault bool // the tty will reject part of the next frame
+	Faulted    bool // the observation point just returned is a Show whose frame the tty cut short
+	Corrupted  bool // emulator contents scrambled: comparisons suspended until a full redraw
 	Fini      bool
 	Suspended bool
 	writes    int
@@ -200,6 +203,7 @@ func New(cfg Config) (*Runner, error) {
 		return nil, fmt.Errorf("harness: charset %q not registered", cs)
 	}
 	r.Term = vt.New(cfg.W, cfg.H, enc, vt.Profile{ImmediateWrap: r.Caps.AMTrick, FormFeedClears: ti.Clear == "\f"})
+	r.Term.Quiet = true // until a Show / Sync / resize redraw is in progress
 	debug := os.Getenv("VERIF_DEBUG") != ""
 	r.Tty.Sink = func(b []byte) {
 		if debug {
@@ -242,7 +246,7 @@ func (r *Runner) Close() {
 		go func() { r.Screen.Fini(); close(done) }()
 		select {
 		case <-done:
-		case <-time.After(10 * time.Second):
+		case <-pbt.After(10 * time.Second):
 		}
 		r.Fini = true
 	}
@@ -267,14 +271,25 @@ func (r *Runner) writeCount() int {
 // Apply executes one op on screen, model and terminal.
 func (r *Runner) Apply(op Op) (Point, error) {
 	s := r.Screen
+	r.Faulted = false
 	switch op.Kind {
 	case "set":
 		st := op.Style.Style()
-		s.SetContent(op.X, op.Y, op.R, append([]rune(nil), op.Comb...), st)
+		// the application's slice is its own: it is reused for something else
+		// right after the call (the screen must have taken a copy)
+		scratch := append([]rune(nil), op.Comb...)
+		s.SetContent(op.X, op.Y, op.R, scratch, st)
+		for i := range scratch {
+			scratch[i] = 0x0336 // another zero-width mark
+		}
 		r.Shadow.SetContent(op.X, op.Y, op.R, op.Comb, st)
 	case "setcell":
 		st := op.Style.Style()
-		s.SetCell(op.X, op.Y, st, append([]rune{op.R}, op.Comb...)...)
+		scratch := append([]rune{op.R}, op.Comb...)
+		s.SetCell(op.X, op.Y, st, scratch...)
+		for i := range scratch {
+			scratch[i] = 0x0336
+		}
 		r.Shadow.SetContent(op.X, op.Y, op.R, op.Comb, st)
 	case "fill":
 		st := op.Style.Style()
@@ -315,7 +330,23 @@ func (r *Runner) Apply(op Op) (Point, error) {
 			r.Corrupted = true
 		}
 		r.silentResize = false
+		r.Term.Quiet = false
 		s.Show()
+		r.Term.Quiet = true
+		if r.writeFault {
+			// the tty took only part of the frame: the terminal is left in the
+			// middle of it, and only a full redraw has to repair that
+			r.writeFault = false
+			r.Term.AbortPending()
+			r.Corrupted = true
+			r.FullNext = false
+			if r.BeforeMark != nil {
+				r.BeforeMark(false)
+			}
+			r.Shadow.MarkShown(false)
+			r.Faulted = true
+			return Shown, nil
+		}
 		full := r.FullNext || resized
 		r.FullNext = false
 		if r.BeforeMark != nil {
@@ -331,7 +362,9 @@ func (r *Runner) Apply(op Op) (Point, error) {
 		r.Term.NextBlock()
 		r.noticeSize()
 		r.silentResize = false
+		r.Term.Quiet = false
 		s.Sync()
+		r.Term.Quiet = true
 		r.FullNext = false
 		r.Corrupted = false
 		if r.BeforeMark != nil {
@@ -349,10 +382,12 @@ func (r *Runner) Apply(op Op) (Point, error) {
 		}
 		r.Term.NextBlock()
 		before := r.writeCount()
+		r.Term.Quiet = false // the main loop redraws on its own
+		defer func() { r.Term.Quiet = true }()
 		if !r.Tty.SetSize(op.W, op.H, true) {
 			return None, nil
 		}
-		deadline := time.Now().Add(10 * time.Second)
+		deadline := time.Now().Add(pbt.Scaled(10 * time.Second))
 		for r.writeCount() == before {
 			if time.Now().After(deadline) {
 				return None, fmt.Errorf("harness: no redraw within 10s of a resize notification")
@@ -370,6 +405,10 @@ func (r *Runner) Apply(op Op) (Point, error) {
 		}
 		r.Shadow.MarkShown(true)
 		return Resized, nil
+	case "writefault":
+		// the next frame (Show) is only partly accepted by the tty
+		r.Tty.FailNextWrite(op.N)
+		r.writeFault = true
 	case "corrupt":
 		r.Term.Scramble(op.N, r.Caps.Url)
 		r.Corrupted = true
